@@ -372,6 +372,7 @@ async fn run_task(
     let cancel_rx = handle.cancel_tx.subscribe();
 
     if payload.tool != "bash" && payload.tool != "shell" {
+        emit_spawned(&handle, &emitter, &payload, execution_mode, None, None).await;
         fail_task(
             &handle,
             &emitter,
@@ -385,6 +386,7 @@ async fn run_task(
     let args: ShellArgs = match serde_json::from_value(payload.args.clone()) {
         Ok(args) => args,
         Err(err) => {
+            emit_spawned(&handle, &emitter, &payload, execution_mode, None, None).await;
             fail_task(&handle, &emitter, format!("invalid args: {err}")).await;
             finalize_snapshot(&handle, &snapshot_dir).await;
             return;
@@ -398,6 +400,15 @@ async fn run_task(
         .await
         .is_err()
     {
+        emit_spawned(
+            &handle,
+            &emitter,
+            &payload,
+            execution_mode,
+            args.cwd.clone(),
+            Some((artifact_max_bytes, max_bytes)),
+        )
+        .await;
         fail_task(
             &handle,
             &emitter,
@@ -409,22 +420,15 @@ async fn run_task(
     }
 
     let spawn_time_ms = now_ms();
-    emitter
-        .emit(EventKind::ToolTaskSpawned {
-            task_id: handle.task_id.clone(),
-            tool_name: payload.tool.clone(),
-            args: payload.args.clone(),
-            cwd: args.cwd.clone(),
-            title: payload.title.clone(),
-            execution_mode,
-            origin_session_id: payload.origin_session_id.clone(),
-            artifacts: Some(json!({
-                "logs": handle.logs.refs_json(),
-                "artifact_max_bytes": artifact_max_bytes,
-                "max_bytes": max_bytes,
-            })),
-        })
-        .await;
+    emit_spawned(
+        &handle,
+        &emitter,
+        &payload,
+        execution_mode,
+        args.cwd.clone(),
+        Some((artifact_max_bytes, max_bytes)),
+    )
+    .await;
 
     let _workspace_guard = workspace_lock.acquire().await;
     match execution_mode {
@@ -461,6 +465,35 @@ async fn run_task(
     }
 
     finalize_snapshot(&handle, &snapshot_dir).await;
+}
+
+/// Every task stream opens with its spawn frame, also when the task fails before it starts
+/// (`limits` is unknown when the arguments could not be parsed).
+async fn emit_spawned(
+    handle: &TaskHandle,
+    emitter: &TaskEmitter,
+    payload: &TaskSpawnPayload,
+    execution_mode: ToolTaskExecutionMode,
+    cwd: Option<String>,
+    limits: Option<(usize, usize)>,
+) {
+    let mut artifacts = json!({ "logs": handle.logs.refs_json() });
+    if let Some((artifact_max_bytes, max_bytes)) = limits {
+        artifacts["artifact_max_bytes"] = json!(artifact_max_bytes);
+        artifacts["max_bytes"] = json!(max_bytes);
+    }
+    emitter
+        .emit(EventKind::ToolTaskSpawned {
+            task_id: handle.task_id.clone(),
+            tool_name: payload.tool.clone(),
+            args: payload.args.clone(),
+            cwd,
+            title: payload.title.clone(),
+            execution_mode,
+            origin_session_id: payload.origin_session_id.clone(),
+            artifacts: Some(artifacts),
+        })
+        .await;
 }
 
 async fn fail_task(handle: &TaskHandle, emitter: &TaskEmitter, error: String) {
